@@ -608,6 +608,16 @@ def matrix_cells():
                 for v_lang, v_base, cli in ((vals[-1], vals[0], None), (vals[0], vals[-1], None)) + (((vals[-1], vals[0], vals[0]), (vals[0], vals[-1], vals[-1])) if key in L["cli"] else ()):
                     cells.append({"kind": "lang", "linter": name, "section": L["sections"][0], "key": key, "lang": lang, "v_lang": v_lang, "v_base": v_base,
                                   "carrier": CARRIERS[(len(cells)) % len(CARRIERS)], "cli_value": cli})
+        if name in LANGMIX:
+            # a per-language section that sets a subset of the thresholds, for every language, both directions
+            keys = LANGMIX[name]
+            knobs = dict(L["knobs"])
+            subsets = [[k] for k in keys] + ([keys] if len(keys) > 1 else [])
+            for lang in ("py", "ts", "js", "rs"):
+                for sub in subsets:
+                    for lo, hi in ((0, -1), (-1, 0)):
+                        cells.append({"kind": "langmix", "linter": name, "section": L["sections"][0], "lang": lang, "base": {k: knobs[k][lo] for k in keys},
+                                      "over": {k: knobs[k][hi] for k in sub}, "carrier": CARRIERS[len(cells) % len(CARRIERS)], "spelling": "hyphen"})
         for carrier in CARRIERS:
             cells.append({"kind": "invalid", "what": "unparsable", "linter": name, "section": L["sections"][0], "carrier": carrier, "spelling": "hyphen"})
             for form in range(3):
@@ -619,7 +629,7 @@ def run(ctx):
     cells = matrix_cells()
     mine = ctx.my_cells(cells)
     if ctx.quick:  # every invalid-value cell (one CLI call each); half of the sweeps / ignore cells, rotating with the seed
-        mine = [c for i, c in enumerate(mine) if c["kind"] in ("invalid", "lang") or (i + ctx.seed) % 2 == 0]
+        mine = [c for i, c in enumerate(mine) if c["kind"] in ("invalid", "lang", "langmix") or (i + ctx.seed) % 2 == 0]
     done = ctx.each(mine, check)
     ctx.stats.extra.setdefault("matrix", {})["sweep/invalid/ignore/language-override cells: section x knob x carrier x spelling"] = {"cells": len(ctx.my_cells(cells)), "done": done}
     pairs = [(n, s) for n, L in LINTERS.items() for s in L["sections"]]
